@@ -181,7 +181,7 @@ type mutation struct {
 }
 
 // mutations that need a multiplexer apply to few sites: they are tried more often
-var mutationWeight = map[string]int{"mux-groups": 4, "nested-name-clash": 3, "deep-name-clash": 4, "group-count-boundary": 4, "cross-mux-ref": 4, "retarget-id": 3, "size-fields": 4, "overlap-in-shared-group": 5, "enum-numbers": 3}
+var mutationWeight = map[string]int{"mux-groups": 4, "nested-name-clash": 3, "deep-name-clash": 4, "group-count-boundary": 4, "cross-mux-ref": 4, "retarget-id": 3, "size-fields": 4, "overlap-in-shared-group": 5, "enum-numbers": 3, "second-interface-of-node-on-bus": 4, "duplicate-key": 3, "duplicate-number-key": 3}
 
 func pickMutation(r *rng) mutation {
 	total := 0
@@ -500,7 +500,17 @@ var mutations = []mutation{
 		if a == b {
 			return ""
 		}
-		// prefer a sibling of the same kind
+		// mostly a sibling of the same kind; in a third of the cases an entity of ANOTHER kind (ids are unique over
+		// the whole network, names only among siblings)
+		if r.chance(35) {
+			for t := 0; t < 8 && s.entOwners[a] == s.entOwners[b]; t++ {
+				b = live[r.below(len(live))]
+			}
+			if a != b && s.entOwners[a] != s.entOwners[b] {
+				(*s.ents[a]).EntityId = (*s.ents[b]).EntityId
+				return "entity id of a " + s.entOwners[a] + " set to the id of a " + s.entOwners[b] + " (another kind)"
+			}
+		}
 		for t := 0; t < 8 && s.entOwners[a] != s.entOwners[b]; t++ {
 			b = live[r.below(len(live))]
 		}
@@ -537,6 +547,26 @@ var mutations = []mutation{
 		case 3:
 			if len(n.SignalEnums) > 0 {
 				e := n.SignalEnums[r.below(len(n.SignalEnums))]
+				if len(e.Values) >= 1 && r.chance(50) {
+					// a further value whose index equals the HIGHEST index of the enum (boundary of a max-index fast path)
+					mx := e.Values[0]
+					for _, v := range e.Values {
+						if v.Index > mx.Index {
+							mx = v
+						}
+					}
+					c := proto.Clone(mx).(*pb.SignalEnumValue)
+					if c.Entity != nil {
+						c.Entity.EntityId = fmt.Sprintf("dupidx%d", r.below(1<<30))
+						c.Entity.Name = fmt.Sprintf("DUPIDX_%d", r.below(1<<30))
+					}
+					if r.chance(50) {
+						e.Values = append(e.Values, c)
+					} else {
+						e.Values = append([]*pb.SignalEnumValue{c}, e.Values...)
+					}
+					return "enum value added whose index equals the highest index of the enum"
+				}
 				if len(e.Values) >= 2 {
 					e.Values[r.below(len(e.Values))].Index = e.Values[r.below(len(e.Values))].Index
 					return "enum value index duplicated"
@@ -636,6 +666,35 @@ var mutations = []mutation{
 		l := s.ifLists[r.below(len(s.ifLists))]
 		*l = append(*l, &pb.NodeInterface{Number: src.Number, NodeEntityId: src.NodeEntityId})
 		return "interface listed a second time (no messages), same or other bus"
+	}},
+	{"second-interface-of-node-on-bus", func(r *rng, n *pb.Network, s *sites) string {
+		// a bus lists a SECOND, different interface of a node it already holds an interface of
+		// (Bus.AddNodeInterface refuses it: node names and ids are unique within a bus)
+		counts := map[string]uint32{}
+		for _, nd := range n.Nodes {
+			if nd.Entity != nil {
+				counts[nd.Entity.EntityId] = nd.InterfaceCount
+			}
+		}
+		for t := 0; t < 20 && len(n.Buses) > 0; t++ {
+			b := n.Buses[r.below(len(n.Buses))]
+			if len(b.NodeInterfaces) == 0 {
+				continue
+			}
+			src := b.NodeInterfaces[r.below(len(b.NodeInterfaces))]
+			cnt := counts[src.NodeEntityId]
+			if cnt < 2 && !r.chance(20) {
+				continue
+			}
+			span := int32(max(cnt, 2))
+			num := (src.Number + 1 + int32(r.below(int(span)-1))) % span
+			if num == src.Number {
+				num = src.Number + 1
+			}
+			b.NodeInterfaces = append(b.NodeInterfaces, &pb.NodeInterface{Number: num, NodeEntityId: src.NodeEntityId})
+			return fmt.Sprintf("bus lists interface %d of a node whose interface %d it already holds", num, src.Number)
+		}
+		return ""
 	}},
 	{"deep-name-clash", func(r *rng, n *pb.Network, s *sites) string {
 		// inside ONE top-level multiplexer: a signal held by an inner multiplexer takes the name of a signal
@@ -1218,6 +1277,24 @@ func invariants(n *acmelib.Network) (out []string, panicked string) {
 						out = append(out, "c05-receiver-is-sender: an interface receives a message it sends")
 					}
 				}
+			}
+		}
+	}
+	// interface <-> bus, for EVERY interface of every node met (not only those a bus lists)
+	for _, nd := range col.nodes {
+		for _, ni := range nd.Interfaces() {
+			pb := ni.ParentBus()
+			if pb == nil {
+				continue
+			}
+			listed := false
+			for _, x := range pb.NodeInterfaces() {
+				if x == ni {
+					listed = true
+				}
+			}
+			if !listed {
+				out = append(out, fmt.Sprintf("c05-iface-bus-link-not-listed: interface %q/%d reports bus %q as parent, the bus does not list it", nd.Name(), ni.Number(), pb.Name()))
 			}
 		}
 	}
